@@ -100,6 +100,11 @@ func (p *peer) onBytes(b []byte) []byte {
 			res.Args.Set("code", amf0.NewString("NetConnection.Connect.Success"))
 			p.b.WritePacket(res, 0)
 		}
+		if p.extra == "bwdone-after" {
+			call := rtmp.NewCallPacket()
+			call.CommandName, call.TransactionID, call.CommandObject = "onBWDone", 0, amf0.NewNull()
+			p.b.WritePacket(call, 0)
+		}
 		out = append(out, p.bout.Bytes()...)
 	}
 	return out
@@ -108,18 +113,39 @@ func (p *peer) onBytes(b []byte) []byte {
 // ---------------------------------------------------------------- scheduled transport
 
 type schedConn struct {
-	peer     *peer
+	peer *peer
+	// back-pressure: when cap > 0 at most cap bytes of the peer's output are in flight towards the reader; the rest waits in
+	// pending, and the (single-threaded, in-order) peer does not accept further request bytes while it still has output to
+	// deliver, like a synchronous pipe or a TCP connection with full buffers
+	cap      int
+	pending  []byte
 	inbound  []byte
 	outLen   int
 	readLog  []int
 	writeLog []int
 }
 
+func (c *schedConn) refill() {
+	if c.cap <= 0 {
+		c.inbound = append(c.inbound, c.pending...)
+		c.pending = nil
+		return
+	}
+	if n := c.cap - len(c.inbound); n > 0 && len(c.pending) > 0 {
+		if n > len(c.pending) {
+			n = len(c.pending)
+		}
+		c.inbound = append(c.inbound, c.pending[:n]...)
+		c.pending = c.pending[n:]
+	}
+}
+
 func (c *schedConn) Write(p []byte) (int, error) {
-	vsched.Point("transport.write")
+	vsched.Await("transport.write", func() bool { return c.cap <= 0 || len(c.pending) == 0 })
 	c.outLen += len(p)
 	c.writeLog = append(c.writeLog, len(p))
-	c.inbound = append(c.inbound, c.peer.onBytes(p)...)
+	c.pending = append(c.pending, c.peer.onBytes(p)...)
+	c.refill()
 	return len(p), nil
 }
 
@@ -128,6 +154,7 @@ func (c *schedConn) Read(p []byte) (int, error) {
 	n := copy(p, c.inbound)
 	c.inbound = c.inbound[n:]
 	c.readLog = append(c.readLog, n)
+	c.refill()
 	return n, nil
 }
 
@@ -243,7 +270,12 @@ func judgeRecords(reqs []req, recs []record, wErrs []string, tx string, extraPer
 			return "wrong-response-body", fmt.Sprintf("response %d stream id %v, sent %v", i, r.Sid, reqs[i].Tid+100)
 		}
 	}
-	if others != extraPerResp*len(reqs) {
+	if extraPerResp == 1 {
+		// extra traffic follows each response: the reader stops after the last response, so the last extra may be unread
+		if others < len(reqs)-1 || others > len(reqs) {
+			return "other-traffic", fmt.Sprintf("%d non-response packets decoded, peer sent %d (the last one may be unread)", others, len(reqs))
+		}
+	} else if others != extraPerResp*len(reqs) {
 		return "other-traffic", fmt.Sprintf("%d non-response packets decoded, peer sent %d", others, extraPerResp*len(reqs))
 	}
 	if tx != "<absent>" && tx != "map[]" {
@@ -253,15 +285,22 @@ func judgeRecords(reqs []req, recs []record, wErrs []string, tx string, extraPer
 }
 
 func scenario(name string, reqs []req, extra string, bounds []int, prune bool) mc.Scenario {
+	return scenarioCap(name, reqs, extra, bounds, prune, 0)
+}
+
+func scenarioCap(name string, reqs []req, extra string, bounds []int, prune bool, capacity int) mc.Scenario {
 	extraPer := 0
 	if extra == "status-before" {
 		extraPer = 2
+	}
+	if extra == "bwdone-after" {
+		extraPer = 1
 	}
 	s := mc.Scenario{
 		Name: name, Bounds: bounds, Horizon: 3000,
 		Setup: func(x *vsched.Exec) {
 			d := &execData{reqs: reqs}
-			d.conn = &schedConn{peer: newPeer(extra)}
+			d.conn = &schedConn{peer: newPeer(extra), cap: capacity}
 			d.a = rtmp.NewProtocol(d.conn)
 			x.Data = d
 			x.Go("W", func() {
@@ -292,7 +331,7 @@ func scenario(name string, reqs []req, extra string, bounds []int, prune bool) m
 	if prune {
 		s.StateKey = func(x *vsched.Exec) string {
 			d := x.Data.(*execData)
-			return fmt.Sprintf("in=%d out=%d tx=%s reads=%v writes=%v recs=%v w=%d o=%d", len(d.conn.inbound), d.conn.outLen, txDump(d.a), d.conn.readLog, d.conn.writeLog, d.recs, d.wDone, d.others)
+			return fmt.Sprintf("pend=%d in=%d out=%d tx=%s reads=%v writes=%v recs=%v w=%d o=%d", len(d.conn.pending), len(d.conn.inbound), d.conn.outLen, txDump(d.a), d.conn.readLog, d.conn.writeLog, d.recs, d.wDone, d.others)
 		}
 	}
 	return s
@@ -315,6 +354,10 @@ func scenarios(c *hl.Ctx) []mc.Scenario {
 		// a request larger than the writer's buffer after a large chunk size: its last bytes reach the transport before the flush
 		scenario("big-connect-after-set-chunk-size+createStream", []req{{"bigconnect", 1}, {"createStream", 2}}, "", unb, true),
 		scenario("3-createStream", cs(2, 3, 4), "", unb, true),
+		// back-pressured transport: 8 bytes in flight, the peer sends onBWDone after each _result and accepts the next
+		// request only when its output has been delivered (pipelined requests must not deadlock reader and writer)
+		scenarioCap("backpressure: connect+createStream, onBWDone after each result", []req{{"connect", 1}, {"createStream", 2}}, "bwdone-after", unb, true, 8),
+		scenarioCap("backpressure: 3-createStream, onBWDone after each result", cs(2, 3, 4), "bwdone-after", []int{0, 1, 2, 3}, true, 8),
 	}
 	if c.Thorough() {
 		l = append(l,
